@@ -167,6 +167,34 @@ def run(ck):
     ]
 
 
+def _onehot_flip(t, S, I):
+    """Row i of where(eye(n) seen as (n, 1, ..., 1, n), A, S) - the batch with A's values at site i and S's elsewhere - as the
+    update S[..., i] := A[..., i], for the two spellings of the flip A = |S - 1| and A = 1 - S; None when t is not of that form."""
+    a = t.single_atom() if t is not None else None
+    if not (isinstance(a, T.App) and a.op == "index" and len(a.args[1]) == 1 and a.args[1][0] == I):
+        return None
+    w = a.args[0].single_atom() if isinstance(a.args[0], T.Poly) else None
+    if not (isinstance(w, T.App) and w.op == "where" and len(w.args) == 3 and w.args[2] == S):
+        return None
+    m = w.args[0].single_atom() if isinstance(w.args[0], T.Poly) else None
+    if not (isinstance(m, T.App) and m.op == "view" and len(m.args) == 2):
+        return None
+    e = m.args[0].single_atom() if isinstance(m.args[0], T.Poly) else None
+    if not (isinstance(e, T.App) and e.op == "eye" and len(e.args) == 1 and e.args[0] == T.sym("nv")):
+        return None
+    d = m.args[1]
+    groups = d.split(":")[1].split(",") if isinstance(d, str) and d.startswith("regroup:") else None
+    if groups is None or len(groups) < 2 or groups[0] != "1" or groups[-1] != "1" or any(g != "0" for g in groups[1:-1]):
+        return None  # not the identity's rows and columns kept as first and last axis with size-1 axes in between
+    spec = ("ellipsis", I)
+    A = w.args[1]
+    if A == T.absval(S - 1):
+        return T.upd(S, spec, T.absval(T.app("index", S, spec) - 1))
+    if A == 1 - S:
+        return T.upd(S, spec, 1 - T.app("index", S, spec))
+    return None
+
+
 def _check_flip_estimator(ck, inst, asite, p, cls, ocls, absolute):
     prog = ck.program
     it = p.interp
@@ -182,9 +210,13 @@ def _check_flip_estimator(ck, inst, asite, p, cls, ocls, absolute):
     if not isinstance(itv, VRange):
         # a loop over something else than a range of site indices (the rows of a tensor of flipped copies, a zip of such): its
         # trip count is the length of what it runs over, when the analyser can tell
+        from ..interp import _count_term
+
         srcs_ = [itv] + list(getattr(itv, "sources", None) or [])
         lens_ = {str(x.shape[0]) for x in srcs_ if isinstance(x, VTens) and x.shape}
         okr = True if lens_ == {"nv"} else None
+        if okr is None and _count_term(itv) == ("range", T.ZERO, T.sym("nv"), T.ONE):
+            okr = True  # (an enumeration of) a list holding one item per site
     ck.check(okr, "C08.R3", inst + ":all sites", lp["site"], "the site loop does not run over range(samples.shape[-1])")
     isym = "i@" + lp["site"]
     I = T.sym(isym)
@@ -199,7 +231,7 @@ def _check_flip_estimator(ck, inst, asite, p, cls, ocls, absolute):
     a_vp, a_v = env.get("vp"), env.get("v")
     want_f = flipped_term(S, I)
     alt_f = T.upd(S, ("ellipsis", I), 1 - T.app("index", S, ("ellipsis", I)))  # 1 - s is the same flip on {0, 1}
-    ok_f = isinstance(a_vp, VTens) and a_vp.term in (want_f, alt_f)
+    ok_f = isinstance(a_vp, VTens) and (a_vp.term in (want_f, alt_f) or _onehot_flip(a_vp.term, S, I) in (want_f, alt_f))
     if ok_f:
         ck.ok("C08.R3", inst + ":flipped at site i", lp["site"], flipped=a_vp.term)
     elif isinstance(a_vp, VTens) and a_vp.term is not None and a_vp.term == S:
@@ -267,6 +299,10 @@ def _check_flip_estimator(ck, inst, asite, p, cls, ocls, absolute):
     want = strip_regularisers(want) if regularisers(want) else want
     if got == want:
         ck.ok("C08.R3", inst + ":sum/denominator/nsites", asite)
+    elif absolute and got == T.idx0(q.term, 0) * T.inv(T.sym("nv")):
+        ck.violation("C08.R3", inst + ":sum/denominator/nsites", asite, "the observable was built with absolute=True but the signed per-sample value is returned (the absolute value is not taken)")
+    elif (not absolute) and got == T.absval(T.idx0(q.term, 0) * T.inv(T.sym("nv"))):
+        ck.violation("C08.R3", inst + ":sum/denominator/nsites", asite, "the absolute value is taken although the observable was built with absolute=False")
     elif got == T.idx0(q.term, 0) or (absolute and got == T.absval(T.idx0(q.term, 0))):
         ck.violation("C08.R3", inst + ":sum/denominator/nsites", asite, "the estimator is not divided by the number of sites")
     elif got == T.idx0(q.term, 1) * T.inv(T.sym("nv")):
